@@ -2011,6 +2011,33 @@ Section Oracle.
       cbn [l2_tr sum_fill]. repeat split; try assumption; lia.
   Qed.
 
+
+  (* lookahead_clamped: while the window holds the full look-ahead (not flushing, not finishing:
+     read_limit = write_pos - keep_size_after) the parser observes the same thing whatever amount
+     of further data the caller has already supplied: two states that differ only in write_pos
+     (and read_limit) lead the same strategy to the same decision *)
+  Lemma run_strat_frame p s e e' tr tr' : wf_p p -> minv p e -> minv p e' ->
+    read_ahead e = read_ahead e' ->
+    match_len_max p + extra_after p - read_ahead e <= write_pos (e_lz e) - read_pos (e_lz e) ->
+    match_len_max p + extra_after p - read_ahead e' <= write_pos (e_lz e') - read_pos (e_lz e') ->
+    forall e1 len full ps1 tr1 e1' len' full' ps1' tr1',
+    run_strat PS p s e tr = Ok (e1, len, full, ps1, tr1) ->
+    run_strat PS p s e' tr' = Ok (e1', len', full', ps1', tr1') ->
+    len = len' /\ full = full' /\ ps1 = ps1' /\ read_ahead e1 = read_ahead e1'.
+  Proof.
+    intros W M M' Hra Hs Hs' e1 len full ps1 tr1 e1' len' full' ps1' tr1' E E'.
+    pose proof (run_strat_spec p W s e tr M) as R. pose proof (run_strat_spec p W s e' tr' M') as R'.
+    rewrite E in R. rewrite E' in R'. cbn [okor] in R, R'.
+    destruct R as (_ & _ & _ & _ & _ & _ & _ & _ & _ & _ & _ & _ & _ & RI).
+    destruct R' as (_ & _ & _ & _ & _ & _ & _ & _ & _ & _ & _ & _ & _ & RI').
+    set (A := Z.max (write_pos (e_lz e) - read_pos (e_lz e)) (write_pos (e_lz e') - read_pos (e_lz e'))).
+    assert (H1 : irun p s A (read_ahead e) = Some (read_ahead e1, len, full, ps1)).
+    { apply RI. unfold view_ok. cbv zeta. right. split; [exact Hs|unfold A; lia]. }
+    assert (H2 : irun p s A (read_ahead e') = Some (read_ahead e1', len', full', ps1')).
+    { apply RI'. unfold view_ok. cbv zeta. right. split; [exact Hs'|unfold A; lia]. }
+    rewrite <- Hra in H2. rewrite H1 in H2. injection H2 as <- <- <- <-. repeat split; reflexivity.
+  Qed.
+
 End Oracle.
 
 (* =============================================================================================
@@ -2208,3 +2235,62 @@ Definition old_mode_witness_ds : list ditem :=
 Lemma uncompressed_fallback_in_window_old_refuted :
   l2_replay 2 false false 4096 273 None None old_mode_witness_ops old_mode_witness_ds = Panic P_INDEX.
 Proof. vm_compute. reflexivity. Qed.
+
+(* lookahead_clamped, top level: see run_strat_frame.  The hypothesis on write_pos - read_pos is
+   what has_enough_data guarantees in the steady phase: pidx <= read_limit = write_pos -
+   keep_size_after and keep_size_after = EXTRA_SIZE_AFTER + MATCH_LEN_MAX (phi_consult_nopend +
+   the contract read_ahead <= EXTRA_SIZE_AFTER), so every clamp the parsers apply — min(avail,
+   MATCH_LEN_MAX), min(avail, nice_len), min(get_avail(), OPTS - 1) — returns the clamp. *)
+Theorem lookahead_clamped : forall (PS : Type) p (s : strat PS) e e' tr tr',
+  wf_p p -> minv p e -> minv p e' ->
+  read_ahead e = read_ahead e' ->
+  match_len_max p + extra_after p - read_ahead e <= write_pos (e_lz e) - read_pos (e_lz e) ->
+  match_len_max p + extra_after p - read_ahead e' <= write_pos (e_lz e') - read_pos (e_lz e') ->
+  forall e1 len full ps1 tr1 e1' len' full' ps1' tr1',
+  run_strat PS p s e tr = Ok (e1, len, full, ps1, tr1) ->
+  run_strat PS p s e' tr' = Ok (e1', len', full', ps1', tr1') ->
+  len = len' /\ full = full' /\ ps1 = ps1' /\ read_ahead e1 = read_ahead e1'.
+Proof.
+  intros PS p s e e' tr tr'.
+  exact (run_strat_frame PS (fun ps _ _ => SFail) (fun ps _ => (0, ps)) p s e e' tr tr').
+Qed.
+
+(* ---------------------------------------------------------------------------------------------
+   lzma_expected_size (the .lzma clause of C18) *)
+Lemma l1_results_finished exp : forall ops cur rs c,
+  l1_results exp cur ops = (rs, c, true) -> match exp with Some ex => c = ex | None => True end.
+Proof.
+  induction ops as [|[n| |] r IH]; intros cur rs c H; cbn [l1_results] in H.
+  - discriminate.
+  - destruct (match exp with Some ex => ex <? cur + n | None => false end).
+    + destruct (l1_results exp cur r) as [[rs' c'] f'] eqn:E. injection H as _ <- ->. eapply IH; exact E.
+    + destruct (l1_results exp (cur + n) r) as [[rs' c'] f'] eqn:E. injection H as _ <- ->. eapply IH; exact E.
+  - destruct (l1_results exp cur r) as [[rs' c'] f'] eqn:E. injection H as _ <- ->. eapply IH; exact E.
+  - destruct exp as [ex|]; [|exact I].
+    destruct (Z.eqb_spec ex cur) as [Heq|Hne]; cbn [negb] in H; [injection H as _ <-; exact (eq_sym Heq)|discriminate].
+Qed.
+
+(* An LZMAWriter that was given an expected size [ex]: for every call history and parser, what the
+   calls return is [l1_results (Some ex) 0 ops] — a write() of n bytes is rejected (InvalidInput,
+   nothing accepted, the writer stays usable) exactly when the bytes accepted so far plus n exceed
+   ex; finish() is rejected exactly when the bytes accepted differ from ex — and when finish()
+   succeeds the header's size field (ex, written by the constructor) equals the number of bytes
+   accepted, which equals the sum of the coded symbol lengths. *)
+Theorem lzma_expected_size : forall (PS : Type) (parse : PS -> Z -> Z -> strat PS) (ps0 : PS)
+    normal bt4 dict nice ex ops,
+  opts_ok dict nice -> ops_ok ops -> ops_total ops <= U32_MAX ->
+  okor (do s <- l1_new PS normal bt4 dict nice None (Some ex) ps0; l1_run PS parse s ops [])
+       (fun r =>
+          let '(s1, res) := r in
+          let '(rs, c, fin) := l1_results (Some ex) 0 ops in
+          res = rs /\ sum_fill (l1_tr _ s1) = c /\
+          (fin = true -> ex = c /\ sum_sym (l1_tr _ s1) = ex)).
+Proof.
+  intros PS parse ps0 normal bt4 dict nice ex ops Ho Hok Hcap.
+  eapply okor_weaken.
+  { apply (lzma1_run_exact PS parse ps0 normal bt4 dict nice None (Some ex) ops Ho I Hok). lia. }
+  intros [s1 res]. destruct (l1_results (Some ex) 0 ops) as [[rs c] fin] eqn:E.
+  intros (R1 & R2 & R3). split; [exact R1|]. split; [exact R2|].
+  intros Hf. subst fin. pose proof (l1_results_finished _ _ _ _ _ E) as Hc. cbn in Hc.
+  destruct (R3 eq_refl) as [R4 _]. split; [symmetry; exact Hc|]. rewrite R4. exact Hc.
+Qed.
